@@ -36,10 +36,24 @@ type Case struct {
 	Sweep bool   `json:"sweep,omitempty"` // deterministic single-point mutant number Seed (cb.Sweep) instead of a random one
 	// Level "signed" (positions 61 and 65, sweep only): the payload of the owner-signed COSE_Sign1 is
 	// mutated and re-signed with the owner key, so the mutant passes the device's signature check.
+	// With Fam also position 63: the payload of the voucher entry, re-signed with the manufacturer key.
+	Fam string `json:"fam,omitempty"` // classed mutant (spec/Client_Gen.tla): family of cb.Families, Seed is the index within (message, level, family)
+	Kex string `json:"kex,omitempty"` // key exchange suite of the TO2 run ("": the default for the key kind)
 }
 
+// TransportLimit is the default content length limit of the HTTP transport.
+const TransportLimit = 65535
+
 // mutate picks the mutant for a case.
-func (c Case) mutate(tree *cb.Node) ([]byte, string) {
+func (c Case) mutate(tree *cb.Node, limit int) ([]byte, string) {
+	if c.Fam != "" {
+		cases := cb.Family(c.Fam, tree, 3, limit)
+		if len(cases) == 0 {
+			return tree.Encode(), c.Fam + ":none n=0"
+		}
+		k := cases[int(c.Seed%int64(len(cases)))]
+		return k.Make(), fmt.Sprintf("%s:%s n=%d", c.Fam, k.What, len(cases))
+	}
 	if !c.Sweep {
 		return cb.Mutate(tree, mrand.New(mrand.NewSource(c.Seed)))
 	}
@@ -64,6 +78,7 @@ type Event struct {
 	Err     string `json:"err,omitempty"`
 	Hex     string `json:"hex,omitempty"`
 	Seed    int64  `json:"seed"`
+	Fam     string `json:"fam,omitempty"`
 }
 
 type ownerMod struct{}
@@ -95,6 +110,7 @@ type mutResponder struct {
 	}
 	c     Case
 	owner *world.Party
+	mfg   *world.Party
 	seen  int32
 	what  *string
 	hit  *bool
@@ -117,6 +133,37 @@ func (m *mutResponder) Respond(ctx context.Context, t uint8, msg io.Reader) (uin
 	if err != nil {
 		return rt, resp
 	}
+	limit := TransportLimit
+	if m.c.Pos >= 65 {
+		limit -= 256 // COSE_Encrypt0 / Mac0 framing, IV, tag, padding
+	}
+	if m.c.Level == "signed" && m.c.Pos == 63 {
+		// resp is [OVEntryNum, OVEntry]; the entry is a COSE_Sign1 signed by the previous owner (the
+		// manufacturer for the first entry): mutate its payload, sign again
+		if len(tree.Kids) != 2 {
+			return rt, resp
+		}
+		n := tree.Kids[1].Untag()
+		if len(n.Kids) != 4 || n.Kids[2].Major != 2 {
+			return rt, resp
+		}
+		pt, err := n.Kids[2].Inner()
+		if err != nil {
+			return rt, resp
+		}
+		pb, what := m.c.mutate(pt, limit-(len(enc)-len(n.Kids[2].Bytes))-8)
+		ent, err := srvexec.ResignRaw(tree.Kids[1].Encode(), m.mfg.Key, m.mfg.Kind.PSS(), pb)
+		if err != nil {
+			return rt, resp
+		}
+		en, err := cb.DecodeAll(ent)
+		if err != nil {
+			return rt, resp
+		}
+		out := cb.Arr(tree.Kids[0], en).Encode()
+		*m.what, *m.hit, *m.raw = "signed~"+what, true, out
+		return rt, cbor.RawBytes(out)
+	}
 	if m.c.Level == "signed" {
 		// resp is a COSE_Sign1 signed by the owner: mutate its payload, sign again
 		n := tree.Untag()
@@ -127,7 +174,7 @@ func (m *mutResponder) Respond(ctx context.Context, t uint8, msg io.Reader) (uin
 		if err != nil {
 			return rt, resp
 		}
-		pb, what := m.c.mutate(pt)
+		pb, what := m.c.mutate(pt, limit-(len(enc)-len(n.Kids[2].Bytes))-8)
 		key := m.owner.Key
 		out, err := srvexec.ResignRaw(enc, key, m.owner.Kind.PSS(), pb)
 		if err != nil {
@@ -136,7 +183,7 @@ func (m *mutResponder) Respond(ctx context.Context, t uint8, msg io.Reader) (uin
 		*m.what, *m.hit, *m.raw = "signed~"+what, true, out
 		return rt, cbor.RawBytes(out)
 	}
-	b, what := m.c.mutate(tree)
+	b, what := m.c.mutate(tree, limit)
 	*m.what, *m.hit, *m.raw = what, true, b
 	return rt, cbor.RawBytes(b)
 }
@@ -147,7 +194,7 @@ func (m *mutResponder) CryptSession(ctx context.Context) (kex.Session, error) {
 
 // Run executes one case in a fresh world.
 func Run(run int, c Case) (ev Event) {
-	ev = Event{Run: run, Role: c.Role, Pos: c.Pos, Level: c.Level, Seed: c.Seed, Outcome: "error"}
+	ev = Event{Run: run, Role: c.Role, Pos: c.Pos, Level: c.Level, Seed: c.Seed, Fam: c.Fam, Outcome: "error"}
 	kind := world.KeyKind(c.Kind)
 	if kind == "" {
 		kind = world.P256
@@ -173,7 +220,7 @@ func Run(run int, c Case) (ev Event) {
 		if err != nil {
 			tree = cb.Arr()
 		}
-		x.RespBody, what = c.mutate(tree)
+		x.RespBody, what = c.mutate(tree, TransportLimit)
 		hit, raw = true, x.RespBody
 		return false
 	}}
@@ -201,7 +248,7 @@ func Run(run int, c Case) (ev Event) {
 		return ev
 	}
 	if c.Level == "plain" || c.Level == "signed" {
-		mr := &mutResponder{inner: w.TO2, c: c, owner: w.Owner, what: &what, hit: &hit, raw: &raw}
+		mr := &mutResponder{inner: w.TO2, c: c, owner: w.Owner, mfg: w.Mfg, what: &what, hit: &hit, raw: &raw}
 		h := *(w.OwnerHandler)
 		h.TO2Responder = mr
 		w.OwnerHandler = &fdohttp.Handler{Tokens: h.Tokens, DIResponder: h.DIResponder, TO0Responder: h.TO0Responder, TO1Responder: h.TO1Responder, TO2Responder: mr}
@@ -225,7 +272,7 @@ func Run(run int, c Case) (ev Event) {
 		case "TO1":
 			_, err = w.RunTO1(ctx, dev, hook)
 		case "TO2":
-			_, err = w.RunTO2(ctx, dev, nil, world.TO2Opts{Modules: map[string]serviceinfo.DeviceModule{"m1": devMod{}}}, hook)
+			_, err = w.RunTO2(ctx, dev, nil, world.TO2Opts{Modules: map[string]serviceinfo.DeviceModule{"m1": devMod{}}, Kex: kex.Suite(c.Kex)}, hook)
 		}
 		if err == nil {
 			ev.Outcome = "ok"
@@ -239,7 +286,13 @@ func Run(run int, c Case) (ev Event) {
 	select {
 	case <-done:
 	case <-time.After(40 * time.Second):
-		ev.Outcome = "hang"
+		// the context expired 15 s ago; a starved process on an overloaded machine gets more time
+		// before the run is declared hung (a deadlocked role never returns)
+		select {
+		case <-done:
+		case <-time.After(60 * time.Second):
+			ev.Outcome = "hang"
+		}
 	}
 	ev.What, ev.Hit = what, hit
 	if ev.Outcome == "crash" || ev.Outcome == "hang" {
